@@ -63,6 +63,8 @@ func init() {
 		"crypto/aes.NewCipher":         inAesNewCipher,
 		"crypto/cipher.NewCTR":         inNewCTR,
 		"runtime.KeepAlive":            inNop,
+		"(*sync.Pool).Get":             inPoolGet,
+		"(*sync.Pool).Put":             inPoolPut,
 	}
 }
 
@@ -1220,4 +1222,58 @@ func (ex *Exec) ufSliceCall(fn *ssa.Function, us ufSliceSpec, args []Value, site
 	}
 	k := ex.k64(int64(n))
 	return Slice{Arr: o.Root, Off: ex.k64(0), Len: k, Cap: k}
+}
+
+// ---------- sync.Pool ----------
+// Model: one legal behaviour of sync.Pool - a LIFO free list per pool with no item ever dropped (what a single
+// goroutine observes between garbage collections): Get returns the item Put most recently, or New() when the list is
+// empty. The unchanged library does not use sync.Pool; the model exists so that a change that introduces pooled
+// scratch memory is executed instead of ending as "unsupported". Violations found under it are real (the behaviour
+// is one the runtime exhibits); absence of violations says nothing about the other legal behaviours.
+
+func poolCell(ex *Exec, v Value) *Cell {
+	p, ok := v.(Ptr)
+	if !ok || p.Cell == nil {
+		panic(unsupported("sync.Pool receiver"))
+	}
+	return p.Cell
+}
+
+func inPoolGet(ex *Exec, fn *ssa.Function, args []Value, site string) Value {
+	if ex.mergeDepth > 0 {
+		panic(mergeFail{"sync.Pool in speculative arm"})
+	}
+	c := poolCell(ex, args[0])
+	if l := ex.pools[c]; len(l) > 0 {
+		v := l[len(l)-1]
+		ex.pools[c] = l[:len(l)-1]
+		return v
+	}
+	st, ok := ex.load(args[0].(Ptr), site).(Struct)
+	if !ok {
+		panic(unsupported("sync.Pool value"))
+	}
+	pt := fn.Signature.Recv().Type().(*types.Pointer).Elem().Underlying().(*types.Struct)
+	for i := 0; i < pt.NumFields(); i++ {
+		if pt.Field(i).Name() == "New" {
+			f, ok := st.F[i].(Func)
+			if !ok || f.Fn == nil {
+				return Iface{}
+			}
+			return ex.callClosure(f, nil, site)
+		}
+	}
+	panic(unsupported("sync.Pool without New field"))
+}
+
+func inPoolPut(ex *Exec, fn *ssa.Function, args []Value, site string) Value {
+	if ex.mergeDepth > 0 {
+		panic(mergeFail{"sync.Pool in speculative arm"})
+	}
+	c := poolCell(ex, args[0])
+	if ex.pools == nil {
+		ex.pools = map[*Cell][]Value{}
+	}
+	ex.pools[c] = append(ex.pools[c], args[1])
+	return Tuple{}
 }
